@@ -49,7 +49,10 @@ def _reader_literals(src, tree):
             suffix.append(n.value)
     need(len(skip) == 1 and len(sentinel) == 1 and len(scale) == 1 and suffix == [".nff"],
          "Xray._gettable no longer has the shape loadtxt(skiprows)/sentinel/scale/.nff")
-    need("self.element.symbol.lower()" in seg(fn), "the table file is no longer named after symbol.lower()")
+    # the file is named after the lower-cased symbol of the atom's element (self.element, possibly after
+    # walking .element down to the Element): which symbol that is, is decided by the model and the tie
+    need(re.search(r"\.symbol\.lower\(\)\s*\+\s*[\"']\.nff[\"']", seg(fn)) is not None,
+         "the table file is no longer named <symbol>.lower() + '.nff'")
     return skip[0], sentinel[0], scale[0]
 
 
@@ -106,3 +109,6 @@ def gen_nff():
 GENERATORS = {
     "NffIndex": gen_nff,
 }
+
+# properties whose checks need these generated files (a failure here only breaks those)
+SERVES = ['C05']
